@@ -94,8 +94,27 @@ def loop_iteration(prog: Program, F: IntegrateFacts, ev: Evaluator, ctx: Ctx):
     for n in config_aliases(F.func):
         if '_config' in st.heap[selfv.oid]:
             env[n] = st.heap[selfv.oid]['_config']
-    # any other local assigned before the loop and read inside it
+    # any other local assigned before the loop and read inside it: when it is not reassigned in the loop and the
+    # statements before the loop give it one readable value (a number / a field of self or of the configuration), that
+    # value; otherwise an unknown
     loop_reads = {n.id for n in ast.walk(F.loop) if isinstance(n, ast.Name) and isinstance(n.ctx, ast.Load)}
+    loop_writes = {n.id for n in ast.walk(F.loop) if isinstance(n, ast.Name) and isinstance(n.ctx, ast.Store)}
+    pre = [s_ for s_ in F.func.node.body if s_.lineno < F.loop.lineno and s_ is not F.loop and not F._inside(F.loop, s_)]
+    cand = {n for n in loop_reads - loop_writes if n not in env}
+    if cand and pre:
+        st_pre = st.copy()
+        st_pre.env.update(env)
+        ev_pre = Evaluator(prog, hooks={'construct:_WindSock': lambda *a_: SymObj('wind_sock'), **C.no_wrap_hooks()},
+                           opaque={'winds', 'create_trajectory_row', 'spin_drift'})
+        try:
+            t_pre = ev_pre.exec_block(pre, st_pre, ctx)
+        except (Undecided, AnalysisError):
+            t_pre = None
+        if isinstance(t_pre, Leaf) and t_pre.kind == 'fall':
+            for n in sorted(cand):
+                v = t_pre.state.env.get(n)
+                if isinstance(v, Scalar) and all('@' not in x_ and not x_.startswith('$') for x_ in v.rf.symbols()):
+                    env[n] = v
     for n in loop_reads:
         if n not in env and n not in ('math', 'max', 'min', 'RangeError', 'create_trajectory_row', 'TrajFlag', 'logger',
                                       'warnings', 'abs', 'len', 'float', 'int', 'bool'):
